@@ -13,8 +13,16 @@ FRAGS_CG = ['[$][#P][#Q][$]', '[$][#R]1[#S][#T]1[$]', '[$][#U]([#V])[$]', '[#W][
 
 
 def strip_desc(text):
+    """fragment text without bonding descriptors (and their order symbols) and without annotations"""
     import re
-    return re.sub(r'[=#]?\[[$<>!][^\]]*\][=#]?', '', text)
+    d = r'\[[$<>!][^\]]*\]'
+    # leading descriptors carry their order symbol behind them, all others in front
+    m = re.match(r'^(?:%s[=#.\-]?)+' % d, text)
+    head = ''
+    if m:
+        text = text[m.end():]
+    text = re.sub(r'[=#.\-]?%s' % d, '', text)
+    return re.sub(r';[^\]]*\]', ']', text)          # annotations inside bracket atoms
 
 
 def template(text):
